@@ -22,6 +22,7 @@ from ..selftest import Twin
 from ._engine import CL, CL_REL, RUNNER, STATE, branch_for, param
 
 EXPLANATION = __doc__.split("\n\n", 1)[1]
+TECHNIQUE = 'static analysis: timer-kind inventory vs persisted fields and resume-path scheduling; scheduling arithmetic; release guards'
 TRUSTED = ["CPython ast", "heapq"]
 IR = "llama_agents.server._runtime.idle_release_runtime"
 IR_REL = "packages/llama-agents-server/src/llama_agents/server/_runtime/idle_release_runtime.py"
